@@ -915,3 +915,22 @@ Lemma pinned_join_times_out :
   join_pinned [("a"%string, [CNaN 1; CNum false 2])] [("a"%string, [CNaN 2; CNum false 2])] (SOne (KCol "a"%string)) SNone MNone = Err "Timeout"%string /\
   xor_pinned [("a"%string, [CNaN 1; CNum false 2])] [("a"%string, [CNaN 2; CNum false 2])] (SOne (KCol "a"%string)) SNone false = Err "Timeout"%string.
 Proof. split; vm_compute; reflexivity. Qed.
+
+(* ------------------------------------------------------------------ what an output row carries *)
+Lemma map_fst_combine {A B} (l : list A) (l' : list B) : length l = length l' -> map fst (combine l l') = l.
+Proof. revert l'. induction l as [|a l IH]; destruct l' as [|b l']; simpl; intros H; try discriminate; auto. f_equal. apply IH. lia. Qed.
+Theorem out_row_columns x y m cols k i j :
+  (forall n c, In (n, c) (combine cols k) -> In (n, OC c) (out_row x y m cols (k, i, j))) /\
+  (forall n, In n (lkeys_of x y cols) -> In (n, OC (cellat x n i)) (out_row x y m cols (k, i, j))) /\
+  (forall n, In n (rkeys_of x y cols) -> In (n, OC (cellat y n j)) (out_row x y m cols (k, i, j))) /\
+  (forall n, In n (jkeys_of x y cols) -> In (n, apply_mode m (cellat x n i) (cellat y n j)) (out_row x y m cols (k, i, j))) /\
+  (length k = length cols -> map fst (out_row x y m cols (k, i, j)) = out_names x y cols).
+Proof.
+  unfold out_row. repeat split.
+  - intros n c I. apply in_or_app. left. apply in_map_iff. exists (n, c). auto.
+  - intros n I. apply in_or_app. right. apply in_or_app. left. apply in_map_iff. exists n. auto.
+  - intros n I. apply in_or_app. right. apply in_or_app. right. apply in_or_app. left. apply in_map_iff. exists n. auto.
+  - intros n I. apply in_or_app. right. apply in_or_app. right. apply in_or_app. right. apply in_map_iff. exists n. auto.
+  - intros L. unfold out_names. rewrite !map_app, !map_map. simpl. rewrite !map_id.
+    f_equal. change (fun x0 : string * cell => fst x0) with (@fst string cell). apply map_fst_combine. auto.
+Qed.
